@@ -310,7 +310,8 @@ ForMap(e, m, keys, alts, st) ==
       st1 == SetTop(SetTop(st, IF e.kn = "" THEN "_" ELSE e.kn, S(KeyChars(key))), e.vn, m[key])
       r   == ExecBlock(e.body, 1, R("ok", Nil, <<>>, st1, FALSE, FALSE)) IN
   CASE Bad(r)      -> NoUnk(r)
-    [] r.k = "brk" -> Unspec(r.st)
+    \* break: which entries were visited before it depends on the order -- except in a map with one entry
+    [] r.k = "brk" -> IF alts = <<>> /\ keys = {key} THEN R("ok", Perm(<<r.out>>), <<>>, r.st, FALSE, FALSE) ELSE Unspec(r.st)
     [] r.st.sc[Len(r.st.sc)] # st1.sc[Len(st1.sc)] \/ r.st.log # st.log -> Unspec(r.st)
     [] r.k = "ret" -> ForMap(e, m, keys \ {key}, Append(alts, r.out \o <<r.v>>), r.st)
     [] OTHER       -> ForMap(e, m, keys \ {key}, Append(alts, r.out), r.st)
@@ -381,7 +382,12 @@ CallGo(name, e, st) ==
          IF n # 2 \/ a.vs[1].t # "int" THEN Unspec(s1) ELSE Ok(a.vs[2], Log(s1, [f |-> "p", id |-> a.vs[1].n, v |-> a.vs[2]]))
     [] name = "fail" ->    \* fail(id): records the call, returns the sentinel error
          IF n # 1 \/ a.vs[1].t # "int" THEN Unspec(s1) ELSE ErrW(Log(s1, [f |-> "fail", id |-> a.vs[1].n, v |-> Nil]))
+    [] name = "failrec" -> \* failrec(id): a (struct, error) helper: records the call, returns a struct AND the sentinel error
+         IF n # 1 \/ a.vs[1].t # "int" THEN Unspec(s1) ELSE ErrW(Log(s1, [f |-> "fail", id |-> a.vs[1].n, v |-> Nil]))
     [] name = "id" ->  IF n # 1 THEN Unspec(s1) ELSE Ok(a.vs[1], s1)
+    [] name = "vcount" -> Ok(I(n), s1)      \* vcount(xs...): a variadic Go helper, the number of arguments it received
+    [] name = "getx" ->    \* getx(): the Go value the context data binds to x, handed over as a helper's result
+         IF n # 0 \/ "x" \notin DOMAIN s1.sc[1] THEN Unspec(s1) ELSE Ok(s1.sc[1]["x"], s1)
     [] name = "raw" ->     \* raw(s): the same text, trusted
          IF n # 1 THEN Unspec(s1)
          ELSE IF a.vs[1].t = "str" THEN Ok(H(a.vs[1].s), s1)
